@@ -33,6 +33,7 @@ import (
 //	    snapf                Snapshot into a missing directory -> err
 //	    stream:<k>           StreamToWriter(file_k)            -> streamed:<dump>
 //	    rest:<k> restr:<k>   RestoreSnapshot(bytes) / RestoreFromReader(*os.File) -> restored:<fired>:<dump after>
+//	                         (<fired> counts the listener invocations so far whose own View saw that dump)
 //	    restr:<k>:<pre>:<chunk>:<d|s>   RestoreFromReader(reader with a behaviour): the first reads return at most
 //	                         the sizes in <pre> (a+b+.., 0 = a read returning (0, nil); `-` none), later reads at most
 //	                         <chunk> bytes (`w` = as much as the caller's buffer takes); the last bytes come together
@@ -41,6 +42,17 @@ import (
 //	    gtl:<d|i|f>:<1|0>    GetTimelineId(mode, idF ok/failing) -> tl:<id|->:<idF calls> / tlerr:<calls>
 //	    listen               AddRestoreListener                -> ok
 //	    dump                 full canonical dump               -> dump:<dump>
+//	    restc:<k>:<pre>:<chunk>:<d|s>:<cbs>   RestoreFromReader(reader of that behaviour which CALLS BACK into the
+//	                         Db from inside Read): cbs = `-` or `;`-joined <pos>=<op, ~ for :>; the reader keeps the
+//	                         calls in a queue and issues the head of the queue when it is due: f = on the first Read,
+//	                         m<permille> = on the first Read after that share of the stream was delivered, e = on the
+//	                         Read that reports io.EOF (which also flushes whatever is still queued)
+//	                         -> restoredc:<fired>:<dump after>:<what the calls returned, |-joined, ~ for :>
+//	    snaptc:<k>:<pre>:<post>  snapuc:<k>:<ws>:<pre>:<post>  streamc:<k>:<pre>:<post>
+//	                         View{..SnapshotInTx..} / Update{writes..SnapshotInTx..} / StreamToWriter(w) with reading
+//	                         calls (g GetSnapshotId, d dump; `-` none) issued inside the transaction before / after the
+//	                         copy (stream: from inside w.Write, 1st and 3rd call) -> intx:<pre obs>:<main obs>:<post obs>
+//	    (see c17_staged.go)
 //	conc <kinds> <iters> <seed>   goroutines (r View-dump, w Update, s Snapshot, t StreamToWriter,
 //	                         g GetSnapshotId, l GetTimelineId, R RestoreSnapshot) run concurrently under a
 //	                         watchdog -> ok | mixed:.. | txerr:.. | hang:<hex goroutine dump>
@@ -274,8 +286,15 @@ type c17Env struct {
 	ids       map[string]int
 	nextId    int
 	idfCalls  int
-	fired     atomic.Int64
+	fired     atomic.Int64 // listener invocations (all of them)
 	listeners int
+	// staged / re-entrant observations (c17_staged.go)
+	idmu     sync.RWMutex // guards ids: listeners dump on their own goroutine
+	mu       sync.Mutex
+	seen     []string // what each listener invocation saw (its own View dump), since the last restore settled
+	expected int64    // listener invocations there must have been by now: sum over restores of the listeners registered then
+	good     int      // invocations that saw the database their restore swapped in
+	dead     bool     // a restore hung: the remaining operations are skipped, the directory is left behind
 }
 
 func c17Open() (*c17Env, error) {
@@ -302,6 +321,9 @@ func c17Open() (*c17Env, error) {
 }
 
 func (e *c17Env) close() {
+	if e.dead {
+		return
+	}
 	_ = e.db.Close()
 	_ = os.RemoveAll(e.dir)
 }
@@ -309,7 +331,9 @@ func (e *c17Env) close() {
 func (e *c17Env) dump() string {
 	res := "viewerr"
 	_ = e.db.View(func(tx *bbolt.Tx) error {
+		e.idmu.RLock()
 		res = c17DumpTx(tx, e.ids)
+		e.idmu.RUnlock()
 		return nil
 	})
 	return res
@@ -366,11 +390,16 @@ func (e *c17Env) snapped(id string, err error, at string) string {
 	}
 	n := e.nextId
 	e.nextId++
+	e.idmu.Lock()
 	e.ids[id] = n
+	e.idmu.Unlock()
 	return fmt.Sprintf("snapped:%d:%s", n, at)
 }
 
 func (e *c17Env) op(tok string) string {
+	if e.dead {
+		return "skipped"
+	}
 	f := strings.Split(tok, ":")
 	switch f[0] {
 	case "tx":
@@ -465,8 +494,12 @@ func (e *c17Env) op(tok string) string {
 			e.db.RestoreFromReader(file)
 			_ = file.Close()
 		}
-		fired := e.waitListeners()
-		return fmt.Sprintf("restored:%d:%s", fired, e.dump())
+		fired, post := e.settle()
+		return fmt.Sprintf("restored:%d:%s", fired, post)
+	case "restc":
+		return e.restoreCb(f)
+	case "snaptc", "snapuc", "streamc":
+		return e.inTx(f)
 	case "gsid":
 		id, err := e.db.GetSnapshotId()
 		if err != nil {
@@ -475,7 +508,10 @@ func (e *c17Env) op(tok string) string {
 		if id == nil {
 			return "sid:nil"
 		}
-		if n, ok := e.ids[*id]; ok {
+		e.idmu.RLock()
+		n, ok := e.ids[*id]
+		e.idmu.RUnlock()
+		if ok {
 			return fmt.Sprintf("sid:%d", n)
 		}
 		return "sid:?"
@@ -496,7 +532,7 @@ func (e *c17Env) op(tok string) string {
 		return fmt.Sprintf("tl:%s:%d", c17TlCode(id), calls)
 	case "listen":
 		e.listeners++
-		e.db.AddRestoreListener(func() { e.fired.Add(1) })
+		e.db.AddRestoreListener(e.listener)
 		return "ok"
 	case "dump":
 		return "dump:" + e.dump()
@@ -623,6 +659,13 @@ func c17Conc(kinds string, iters int, seed uint64) string {
 		return "setup-failed"
 	}
 	snapBytes, _ := os.ReadFile(snapPath)
+	// a second snapshot of the same content with another id: the restorers alternate, so that a stale snapshot id is visible
+	snapPathB, _, err := e.db.Snapshot(e.slot("B"))
+	if err != nil {
+		e.close()
+		return "setup-failed"
+	}
+	snapBytesB, _ := os.ReadFile(snapPathB)
 	e.db.AddRestoreListener(func() { e.fired.Add(1) })
 
 	var mu sync.Mutex
@@ -692,7 +735,11 @@ func c17Conc(kinds string, iters int, seed uint64) string {
 						report("txerr:gtl:" + hex.EncodeToString([]byte(err.Error())))
 					}
 				case 'R':
-					e.db.RestoreSnapshot(snapBytes)
+					if (i+gi)%2 == 0 {
+						e.db.RestoreSnapshot(snapBytes)
+					} else {
+						e.db.RestoreSnapshot(snapBytesB)
+					}
 				}
 			}
 		}()
@@ -717,12 +764,22 @@ func c17Conc(kinds string, iters int, seed uint64) string {
 		return fmt.Sprintf("listeners:%d/%d", fired, restores)
 	}
 	res := "ok"
+	stored := ""
 	_ = e.db.View(func(tx *bbolt.Tx) error {
 		if v, ok := c17ReadAll(tx); !ok {
 			res = "mixed:final:" + v
 		}
+		if b := boltz.Path(tx, boltz.Metadata); b != nil {
+			if s := b.GetString(boltz.SnapshotId); s != nil {
+				stored = *s
+			}
+		}
 		return nil
 	})
+	// the reported snapshot id is the one the file carries
+	if id, err := e.db.GetSnapshotId(); res == "ok" && restores > 0 && (err != nil || id == nil || *id != stored) {
+		res = "sid:stale"
+	}
 	return res
 }
 
@@ -822,8 +879,10 @@ func c17GenOp(r *rng, slots int) string {
 			c = "r"
 		}
 		return "tx:" + c17GenWrites(r) + ":" + c
-	case x < 38:
+	case x < 35:
 		return fmt.Sprintf("snap:%d", slot)
+	case x < 38:
+		return c17GenInTx(r, slot)
 	case x < 44:
 		return fmt.Sprintf("snapt:%d", slot)
 	case x < 48:
@@ -832,12 +891,14 @@ func c17GenOp(r *rng, slots int) string {
 		return "snapf"
 	case x < 56:
 		return fmt.Sprintf("stream:%d", slot)
-	case x < 66:
+	case x < 63:
 		return fmt.Sprintf("rest:%d", slot)
-	case x < 68:
+	case x < 65:
 		return fmt.Sprintf("restr:%d", slot)
-	case x < 72:
+	case x < 68:
 		return fmt.Sprintf("restr:%d:%s", slot, c17GenReader(r))
+	case x < 72:
+		return c17GenRestc(r, slot, slots)
 	case x < 80:
 		return "gsid"
 	case x < 92:
@@ -864,6 +925,7 @@ func c17Gen(tier string, seed uint64, out *bufio.Writer) {
 			}
 		}
 	}
+	c17GenStagedFixed(out, tier)
 	nseq, maxLen := 150, 16
 	nconc := 6
 	if tier == "thorough" {
@@ -903,6 +965,9 @@ func c17Gen(tier string, seed uint64, out *bufio.Writer) {
 			restore := fmt.Sprintf("%s:0", pick(r, []string{"rest", "restr"}))
 			if r.chance(1, 2) {
 				restore = "restr:0:" + c17GenReader(r)
+			}
+			if r.chance(1, 3) {
+				restore = c17GenRestc(r, 0, slots)
 			}
 			ops = append(ops, restore, "gsid",
 				"gtl:"+pick(r, []string{"d", "i", "f"})+":1", "gtl:"+pick(r, []string{"d", "i"})+":1", "dump")
